@@ -182,7 +182,14 @@ def deep(ref=False):
     return o
 
 
+def empty_table():
+    """create -> close without any write: no row group at all (added after seeded C01-empty-rowgroups-oom; the zero-row shapes above still
+    write one row group)"""
+    return [E2('empty-table/no-row-group|one-empty-row-group', 'harness/e2/c01_empty.c', all_lib=True, timeout=300, stubs=STUBS if 'STUBS' in globals() else [],
+               bounds='schema of 1..3 columns, no write_batch call; with and without one explicit new_row_group; UNCOMPRESSED / SNAPPY / LZ4 (forks); re-opened via buffer, stdio and mmap')]
+
+
 def obligations(tier):
     if tier == 'quick':
-        return shapes(tier) + wides(tier)
-    return shapes(tier) + wides(tier) + deep()
+        return shapes(tier) + wides(tier) + empty_table()
+    return shapes(tier) + wides(tier) + deep() + empty_table()
